@@ -2,8 +2,9 @@
    Statements only.  The argument vector is C12's interpolation applied per configured string
    (InterpDefs.exec_argv: one element per string, by construction no splitting); what a rewritten
    message looks like to "exec stdin" is C08; here: exit status handling, descriptor inheritance and
-   the header table being searchable after a rewrite. *)
-From Coq Require Import List Bool ZArith.
+   the header table being searchable after a rewrite, and the one variable of the process environment that
+   mdsort itself modifies while it runs (TZ, around every zone abbreviation of a Date header). *)
+From Coq Require Import List Bool NArith ZArith.
 Import ListNotations.
 From MD Require Import Bytes Generated HeaderDefs OrderProofs RewriteProofs InterpDefs ExecDefs ExecProofs.
 
@@ -42,3 +43,20 @@ Print Assumptions C13_argv_length.
 Theorem C13_table_searchable_after_rewrite : forall m, SortedK (m_headers (snd (message_write m))).
 Proof. exact message_write_keeps_sorted. Qed.
 Print Assumptions C13_table_searchable_after_rewrite.
+
+(* the environment: mdsort changes TZ for the duration of one localtime() call per zone abbreviation and restores it from
+   the snapshot taken at start (unset / empty / set are three different states): whatever the messages carried, a child
+   is started with the TZ mdsort itself was started with.  (setenv / unsetenv assumed not to fail; every other variable is
+   never written by mdsort.)  A TZ that does not fit the snapshot buffer (Generated.tz_buf_size) keeps mdsort from starting. *)
+Theorem C13_environment_restored : forall tz zones e, child_tz tz zones = Some e -> e = tz.
+Proof. exact child_tz_is_initial. Qed.
+Print Assumptions C13_environment_restored.
+
+Theorem C13_environment_defined : forall tz zones, child_tz tz zones <> None <->
+  match tz with None => True | Some s => (N.of_nat (length s) < tz_buf_size)%N end.
+Proof. exact child_tz_defined. Qed.
+Print Assumptions C13_environment_defined.
+
+(* non-vacuity: started with an EMPTY TZ, after "GMT", "" and "EST" went through tzabbr, TZ is still present and empty *)
+Example C13_ex_environment : child_tz (Some []) [[71; 77; 84]; []; [69; 83; 84]]%N = Some (Some []).
+Proof. vm_compute. reflexivity. Qed.
